@@ -262,11 +262,9 @@ def run(rep, tier):
         f = fb.fn(eq)
         g = cfgm.CFG(f)
         ext = [n for n in f.walk() if n.get('callee', {}).get('q') == 'uscxml::MicroStepCallbacks::dequeueExternal'][0]
-        blk = None
-        for bid, b in g.blocks.items():
-            cnd = b.get('cond')
-            if cnd is not None and cnd in f.nodes and any(x is ext or x.get('id') == ext['id'] for x in sub(f.nodes[cnd])):
-                blk = bid
+        from ._skel import result_test_blocks
+        blks = result_test_blocks(f, g, ext)
+        blk = blks[-1] if blks else None
         if blk is None:
             raise AnalysisBroken('%s: condition block of dequeueExternal not found' % eq)
         false_succ = [s for s, lab in g.succ_labeled(blk) if lab is False]
